@@ -71,7 +71,7 @@ def plumbing_real(chk):
         rcases.append("timeo " + ",".join(ev)); rexps.append(exp)
     m = 0
     for c, exp in zip(rcases, rexps):
-        out, rc, err = vlib.run_cases(hr, [c], timeout=120)
+        out, rc, err = vlib.run_case_retry(hr, c, timeout=120)
         line = out[0] if out else ""
         got = re.findall(r"(\d+)\.(\d+)/(\d+)\.(\d+)", line)
         if len(got) != len(exp):
